@@ -357,6 +357,18 @@ func cmdCheck(prop, tier string) int {
 					}
 				}
 			}
+			if f.o.Result.Status != "sat" {
+				// no model (quantified goal): the replay template runs its own small enumeration
+				if ok, out, test := tryReplay(f.fr, f.o, map[string]string{}); test != "" {
+					rec["replay_test"] = test
+					rec["replay_output"] = truncate(out, 4000)
+					rec["reproduced_on_real_code"] = ok
+					rec["replay_kind"] = "enumeration by the replay template (the solver gave no model)"
+					if ok {
+						suffix = ""
+					}
+				}
+			}
 			sp := filepath.Join(replayDir, sanitize(f.name)+".smt2")
 			if f.o.Script != "" {
 				_ = os.WriteFile(sp, []byte(f.o.Script+"(check-sat)\n"), 0o644)
